@@ -25,10 +25,13 @@ where
 			} else {
 				// res = -len, properly handling i64::MIN
 				res = u64::from_ne_bytes(len.to_ne_bytes()).wrapping_neg();
-				// Drop the number of bytes in the block to properly advance the reader
-				// Since we don't use that value, decode as u64 instead of i64 (skip zigzag
-				// decoding)
-				let _: u64 = state.read_varint()?;
+				// Drop the number of bytes in the block to properly advance the reader.
+				// We don't use that value, but a negative one is not a valid encoding (and is
+				// rejected when the block is skipped instead of read)
+				let block_len_in_bytes: i64 = state.read_varint()?;
+				if block_len_in_bytes < 0 {
+					return Err(DeError::new("Invalid block length in stream"));
+				}
 			}
 		} else {
 			res = len as u64;
